@@ -1152,7 +1152,14 @@ func (c *Compiler) compileFunc(node *ast.Func) error {
 	// the basic types of int, string, bool, float, and nil.
 	defaults := make([]any, len(params))
 	defaultsSet := map[int]bool{}
-	for name, expr := range node.Defaults() {
+	// Visit the defaults in parameter order, so that the error reported for
+	// an unsupported default does not depend on map iteration order
+	nodeDefaults := node.Defaults()
+	for _, name := range params {
+		expr, hasDefault := nodeDefaults[name]
+		if !hasDefault {
+			continue
+		}
 		var value any
 		switch expr := expr.(type) {
 		case *ast.Int:
